@@ -160,7 +160,7 @@ class SpecCtx:
             x = self.eval(a[1])
             i = self.eval(a[2])
             if isinstance(x, SliceV):
-                return st.seq_read(x.seq, to_int(i))
+                return st.seq_read(x.seq, to_int(i), x.t)
             if isinstance(x, MapV):
                 p, v = st.map_lookup(x, i)
                 return st.ite(p, v, st.zero(self.eng.ir.types[self.eng.ir.under(x.t)]["elem"]))
@@ -781,8 +781,8 @@ class SpecCtx:
             # only(A, B, ...): every effect entry is one of these
             ok = True
             for e in self.trace:
-                if e.kind == "read":
-                    continue
+                if e.kind in ("read", "loopcut"):
+                    continue      # the generic iteration after a loop cut stands for every iteration
                 if not any(match_name(self.flat(p), e.name) for p in args):
                     ok = False
             return z3.BoolVal(ok)
